@@ -279,6 +279,15 @@ func planC14(prop string, seed uint64, tier string, idx int) *Plan {
 			g.p.Extra["monitor"] = "ro"
 		}
 	}
+	if idx%10 >= 5 && k.Preseed != "" && g.p.Profile != "switch matrix" {
+		// transient read errors (open, stat, readdir fail for single requests): nothing is written all the same, and once
+		// the errors are over everything is served as before
+		g.p.Profile += " + read errors, model re-synchronised"
+		k.FaultRate = g.r.pick(20, 60, 150)
+		k.FaultKinds = []string{"read"}
+		k.FaultRecover = true
+		k.GCFreqMs = -1
+	}
 	// sha512 subjects of legacy layouts are the business of C17
 	for _, o := range g.p.Objs {
 		o.SubjAlgo = ""
@@ -552,6 +561,11 @@ func (g *gen) fuzzRaw() Op {
 		rq.Body = []byte(`{"schemaVersion":2,"manifests":[{"digest":"` + g.fuzzDigest() + `"}],"subject":{"digest":"` + g.fuzzDigest() + `"}}`)
 	case 5:
 		rq.Body = []byte(`[1,2,3]`)
+	case 6:
+		// documents without a mediaType whose lists are empty, null or hold nulls (the type has to be detected from them)
+		rq.Body = []byte(r.str(`{"schemaVersion":2,"manifests":[]}`, `{"schemaVersion":2,"manifests":null}`, `{"schemaVersion":2,"layers":[]}`,
+			`{"schemaVersion":2,"config":{},"layers":null}`, `{"schemaVersion":2,"manifests":[],"layers":[]}`, `{"schemaVersion":2,"manifests":[null]}`,
+			`{"schemaVersion":2,"config":null,"layers":[null]}`, `{"schemaVersion":2,"manifests":[{}]}`, `{"schemaVersion":2,"manifests":[],"subject":{}}`, `null`, `{"manifests":{}}`))
 	}
 	switch r.intn(6) {
 	case 0:
